@@ -8,6 +8,7 @@ from . import evalcorr, gen, semoracle, wforacle
 
 SUPPORTED = ['NOT', 'AND', 'NAND', 'OR', 'NOR', 'XOR', 'NXOR', 'GEQ', 'LT', 'LEQ', 'GT']
 NONTRIVIAL_EXCL = None
+NARY = ('AND', 'OR', 'XOR', 'NAND', 'NOR', 'NXOR')
 
 
 def random_supported_circuit(rng, n_inputs=None, n_gates=None):
@@ -23,6 +24,11 @@ def random_supported_circuit(rng, n_inputs=None, n_gates=None):
         t = rng.choice(SUPPORTED)
         pool = avail if rng.random() < 0.5 else avail[-5:]
         ops = [rng.choice(pool)] if t == 'NOT' else rng.sample(pool, 2) if len(set(pool)) >= 2 else [pool[0], pool[0]]
+        if t in NARY and rng.random() < 0.15:
+            # AND/OR/XOR/NAND/NOR/NXOR accept any number >= 2 of operands (defect D25: the pattern
+            # simulation read only the first two)
+            k = rng.choice([3, 3, 4])
+            ops = rng.sample(pool, k) if len(pool) >= k and rng.random() < 0.8 else [rng.choice(pool) for _ in range(k)]
         l = gen.fresh_label(rng, used)
         used.add(l)
         order.append((l, t, ops))
@@ -56,6 +62,10 @@ def has_equivalent_gates(dump):
             return True
         seen[k] = l
     return False
+
+
+def has_nary_xor(dump):
+    return any(t in ('XOR', 'NXOR') and len(ops) > 2 for _, t, ops in dump['gates'])
 
 
 def run_minimize(case):
